@@ -100,9 +100,9 @@ claim("C14",
       "Twin templates per corpus statement: analysed under default schema S (scoped override of the real SQLLineageConfig, or the stubbed "
       "environment) versus the statement with every unqualified table written S.name; S and up to 4/6 other names are free, so S may equal "
       "a qualifier already present; z3 decides over all namings that tables, column pairs and exported node ids (both levels) are equal. "
-      "Counterexamples replayed on the unmodified library with the real config mechanism.",
-      TRUST + "; parser boundary stubbed; statements with a scalar subquery as select item are excluded (library re-enters on text); "
-      "the legacy sqlparse analyzer is not covered by this check",
+      "The same twin runs under the legacy sqlparse analyzer (its table factory is separate code). Counterexamples replayed on the "
+      "unmodified library with the real config mechanism.",
+      TRUST + "; parser boundary stubbed; statements with a scalar subquery as select item are excluded (library re-enters on text)",
       "DESIGN.md section 4 (C14)")
 
 claim("C13",
@@ -146,9 +146,12 @@ claim("C09",
       "Per corpus statement the placeholder text is parsed by the real sqlfluff under ansi and under k other dialects that accept it; all trees "
       "are symbolised with the SAME free names and the real extractors run on each; z3 decides over all namings that sources, targets, "
       "intermediates and column pairs are identical. Quick: one dialect of each of 4 grammar families per statement; thorough: 8 seeded "
-      "dialects per statement and all 25 on /plain statements. Witnesses are replayed on the unmodified library under every dialect involved.",
+      "dialects per statement and all 25 on /plain statements. Legacy leg: the placeholder text is parsed by the real sqlparse, its token tree "
+      "symbolised the same way (lx/legacy.py) and the real SqlParseLineageAnalyzer's TABLE lineage compared with the sqlfluff analyzer's "
+      "for all namings. Witnesses are replayed on the unmodified library under every dialect / analyzer involved.",
       TRUST + "; seven dialect-shape findings reported as KNOWN-FINDING (exasol CREATE VIEW, clickhouse WHERE subquery, tsql view column list, "
-      "UPDATE FROM under tsql/sqlite, tsql MERGE, MERGE INSERT clause under athena/databricks/trino, CREATE TABLE column definitions)",
+      "UPDATE FROM under tsql/sqlite, tsql MERGE, MERGE INSERT clause under athena/databricks/trino, CREATE TABLE column definitions, impala "
+      "CTAS unsupported; legacy analyzer: mixed comma join, HAVING subquery, derived table in a parenthesized join)",
       "DESIGN.md section 4 (C09)")
 
 claim("C07",
